@@ -250,6 +250,16 @@ def corner_programs():
               "stmts": [["assign", "comb", ["slice", sg("e0", 3), 0, 2], sg("i0", 2)],
                         ["assign", "sync", ["slice", sg("r0", 4), 1, 3], ["add", sg("e0", 3), sg("i0", 2)]],
                         ["if", [[["index", sg("e0", 3), 0], [["assign", "comb", sg("c0", 3, True), ["neg", sg("e0", 3)]]]]], [["assign", "comb", ["slice", sg("c0", 3, True), 2, 3], ["const", 0, None, False]]]]]})
+    # 8. FSM whose explicit initial state has a falsy name (0, "") and is not the first one defined
+    for names in ([2, 0, 1], ["go", "", "end"]):
+        fs = {"fsm": {"domain": "sync", "states": names, "init": names[1]}}
+        P.append({"signals": {"i0": [1, False, 0, "in"], "c0": [2, False, 0, "comb"], "r0": [3, False, 0, "sync"]},
+                  "fsms": fs,
+                  "stmts": [["fsm", "sync", "fsm", names[1],
+                             [[names[0], [["assign", "sync", sg("r0", 3), ["add", sg("r0", 3), ["const", 1, None, False]]], ["next", "fsm", names[2]]]],
+                              [names[1], [["assign", "comb", sg("c0", 2), ["const", 1, None, False]], ["if", [[sg("i0", 1), [["next", "fsm", names[0]]]]], None]]],
+                              [names[2], [["assign", "comb", sg("c0", 2), ["const", 2, None, False]], ["next", "fsm", names[1]]]]]],
+                            ["if", [[["ongoing", "fsm", names[1]], [["assign", "comb", ["slice", sg("c0", 2), 1, 2], ["const", 1, None, False]]]]], None]]})
     return P
 
 
